@@ -452,55 +452,6 @@ findInsertionPointBinarySearch(
 
 
 
-template<class PredicateType>
-inline bool
-findInsertionPointLinearSearch(
-            XalanNode*                                  node,
-            MutableNodeRefList::NodeListIteratorType    begin,
-            MutableNodeRefList::NodeListIteratorType    end,
-            MutableNodeRefList::NodeListIteratorType&   insertionPoint,
-            const PredicateType                         isNodeAfterPredicate)
-{
-    assert(node != 0);
-
-    bool    fInsert = true;
-
-    typedef MutableNodeRefList::NodeListIteratorType    NodeListIteratorType;
-
-    NodeListIteratorType    current(begin);
-
-    // Loop, looking for the node, or for a
-    // node that's before the one we're adding...
-    while(current != end)
-    {
-        const XalanNode*    child = *current;
-        assert(child != 0);
-
-        if(child == node)
-        {
-            // Duplicate, don't insert...
-            fInsert = false;
-
-            break;
-        }
-        else if (isNodeAfterPredicate(*node, *child) == false)
-        {
-            // We found the insertion point...
-            break;
-        }
-        else
-        {
-            ++current;
-        }
-    }
-
-    insertionPoint = current;
-
-    return fInsert;
-}
-
-
-
 struct DocumentPredicate
 {
     bool
@@ -531,6 +482,71 @@ struct DocumentPredicate
         return isDocument(node) == true ? &node : node.getOwnerDocument();
     }
 };
+
+
+
+template<class PredicateType>
+inline bool
+findInsertionPointLinearSearch(
+            XalanNode*                                  node,
+            MutableNodeRefList::NodeListIteratorType    begin,
+            MutableNodeRefList::NodeListIteratorType    end,
+            MutableNodeRefList::NodeListIteratorType&   insertionPoint,
+            const PredicateType                         isNodeAfterPredicate)
+{
+    assert(node != 0);
+
+    bool    fInsert = true;
+
+    typedef MutableNodeRefList::NodeListIteratorType    NodeListIteratorType;
+
+    NodeListIteratorType    current(begin);
+
+    bool    fSeenOwnDocument = false;
+
+    // Loop, looking for the node, or for a
+    // node that's before the one we're adding...
+    while(current != end)
+    {
+        const XalanNode*    child = *current;
+        assert(child != 0);
+
+        if(child == node)
+        {
+            // Duplicate, don't insert...
+            fInsert = false;
+
+            break;
+        }
+        else if (DocumentPredicate()(*node, *child) == true)
+        {
+            // A node of another document.  If we have already gone past
+            // nodes of our own document, this is where they end, so
+            // insert here to keep the nodes of a document together...
+            if (fSeenOwnDocument == true)
+            {
+                break;
+            }
+
+            ++current;
+        }
+        else if (isNodeAfterPredicate(*node, *child) == false)
+        {
+            // We found the insertion point...
+            break;
+        }
+        else
+        {
+            fSeenOwnDocument = true;
+
+            ++current;
+        }
+    }
+
+    insertionPoint = current;
+
+    return fInsert;
+}
 
 
 
